@@ -1,8 +1,9 @@
 """C03 - server-to-client delivery (DESIGN.md 5/C03)."""
 from . import sockrules as S
+from . import srvrules as R
 
-META = {'level': 'other', 'explanation': 'see DESIGN.md 5/C03', 'trusted_base': [],
-        'not_decided': [], 'assumptions': []}
+from .meta import meta
+META = meta('C03', level='other', extra_tb=None)
 
 
 def check(A):
@@ -13,3 +14,6 @@ def check(A):
         S.writer_rules(A, fl, 'C03')
         S.send_rules(A, fl, 'C03')
         S.direct_websocket(A, fl, 'C03')
+        S.upgrade_exit_state(A, fl, 'C03')
+        R.api_rules(A, fl, 'C03')
+    R.isolation_rules(A, 'C03')
